@@ -146,7 +146,26 @@ EXTRA7 = {
  "C15": " Indexed lists appenderRef[0..n-1] for n = 1..13 (two-digit indexes): all n resolved, a dangling reference or an ill-typed level at every position rejected.",
  "C18": " Helper parts of 12..17 and 28..32 bytes so that the built names cross the 36-character limit with and without an action.",
 }
-for e in (EXTRA, EXTRA5, EXTRA6, EXTRA7):
+# round 8
+EXTRA8 = {
+ "C02": " The tag-lists-through-properties variants also obtain a named handle for logger l0 before Refresh (a handle does not excuse a logger from listing tags).",
+ "C03": " Rolling boundaries with file creations failing at up to two consecutive boundaries (nothing accepted is dropped); the free-running pass also hands one context-field slice with spare capacity to every call.",
+ "C05": " fsync failing at a rotation or at Stop: the descriptor is closed all the same.",
+ "C06": " The logger-kinds family with a per-target order clause (events and raw writes of one goroutine, through every logger kind incl. the asynchronous rolling-file logger with separate files); the order clause also covers the items queued before the producers start.",
+ "C07": " Every field-list case is preceded by an event whose custom array encoder / marshaler PANICS half-way (recovered by the caller): nothing the layouts pool may carry that state over. Nil values of every nilable kind (chan, func, typed nil slice / map with a value-receiver marshaler, pointer).",
+ "C08": " The same history and nil values as C07.",
+ "C10": " The time hook returning the zero instant (it is still the hook's time).",
+ "C11": " A Refresh rejected for an ill-typed enableCaller / fastCaller value must leave both switches as the last valid configuration set them; call sites at source lines 65532..4294969 (//line directives), miss and hits, both modes.",
+ "C13": " Local zones UTC-8 / UTC-11 / UTC+5:30 with a maximum age below the zone offset (names are local wall-clock time); rotation intervals of 1.5 s, 2.5 s, 90 s, 2.5 h.",
+ "C14": " The zone scenarios of C13 with the retention oracle.",
+ "C15": " Keys and ${placeholders} ending in or consisting of separators ('-', '_'), empty names.",
+ "C16": " After every operation GetAllTags() is compared with the set of registered names.",
+ "C17": " String literals holding 2-, 3- and 4-byte characters in front of bare identifiers / numbers / nested type names / dotted and indexed paths (token texts taken by offset).",
+ "C18": " The lifecycle state search is also registered here: GetAllTags is exactly the set of registered names, registration is idempotent and an invalid name registers nothing in EVERY lifecycle state.",
+ "C19": " A target that can be created but refuses every write (full disk): every call returns.",
+ "C20": " A rolling appender in a process west / east of UTC with a retention shorter than the zone offset.",
+}
+for e in (EXTRA, EXTRA5, EXTRA6, EXTRA7, EXTRA8):
     for k, v in e.items():
         CHECKS[k]["text"] += v
 CHECKS["C15"]["note"] = CHECKS["C15"]["note"].replace("Trusted: the deviation table (expected defaults) in harness/enum/c15.go.", "Trusted: the deviation table in harness/enum/c15.go (expected defaults of integer/boolean/word attributes are read from the live plugin's struct tag, so a tree that declares other defaults is not an alarm).")
